@@ -1156,9 +1156,13 @@ def rtTys : List XTy → Bool
 end
 
 mutual
-/-- the values covered: of the right shape, INTEGER within `long`, ENUMERATED one of the items, a component is
-    absent only when it is OPTIONAL / an extension addition without a DEFAULT the encoder would substitute -/
-def rtVal : XTy → Val → Bool
+/-- the values covered by the round trip in the variant `c` (CANONICAL-XER when `c`): of the right shape, INTEGER
+    within `long`, ENUMERATED one of the items; a component may be absent only when it is OPTIONAL / an extension
+    addition / DEFAULT, and
+    * BASIC-XER (the encoder substitutes the default value for an absent DEFAULT component): a DEFAULT component
+      with a value the encoder substitutes is stored explicitly;
+    * CANONICAL-XER (default values are not encoded): a DEFAULT component is absent or holds another value -/
+def rtVal (c : Bool) : XTy → Val → Bool
   | .boolean, .bool _ => true
   | .null, .null => true
   | .integer r, .int z => decide (-(2 ^ 63) ≤ z ∧ z < 2 ^ 63) && (r != .ulong || decide (0 ≤ z))
@@ -1166,27 +1170,27 @@ def rtVal : XTy → Val → Bool
   | .hexstr, .octets bs => bs.all (· < 256)
   | .bitstr, .bits bs u => bitsOk bs u
   | .utf8str, .octets _ => true
-  | .seq _ ms attrs _, .seq vs => rtVals ms attrs vs
-  | .choice _ alts _, .choice i v => rtAlt alts i v
-  | .seqOf _ _ e, .list vs => vs.all (rtVal e)
+  | .seq _ ms attrs _, .seq vs => rtVals c ms attrs vs
+  | .choice _ alts _, .choice i v => rtAlt c alts i v
+  | .seqOf _ _ e, .list vs => vs.all (rtVal c e)
   | _, _ => false
-def rtVals : List XTy → List Attr → List Val → Bool
+def rtVals (c : Bool) : List XTy → List Attr → List Val → Bool
   | [], [], [] => true
   | m :: ms, a :: as, v :: vs =>
     (match v with
-     | .absent => (dfltVal a).isNone && omitable a
-     | v => rtVal m v) && rtVals ms as vs
+     | .absent => (c || (dfltVal a).isNone) && omitable a
+     | v => rtVal c m v && !(c && isDefault a v)) && rtVals c ms as vs
   | _, _, _ => false
-def rtAlt : List XTy → Nat → Val → Bool
-  | m :: _, 0, v => rtVal m v
-  | _ :: ms, i + 1, v => rtAlt ms i v
+def rtAlt (c : Bool) : List XTy → Nat → Val → Bool
+  | m :: _, 0, v => rtVal c m v
+  | _ :: ms, i + 1, v => rtAlt c ms i v
   | [], _, _ => false
 end
 
 /-- the round-trip statement for the decoder of one type, as a member called `name` -/
 def RT (t : XTy) : Prop :=
   ∀ (c : Bool) (name : Bytes) (il : Nat) (v : Val) (body rest : Bytes) (fuel : Nat),
-    nameOk name = true → clash t name = false → rtVal t v = true → encTy c t il v = some body →
+    nameOk name = true → clash t name = false → rtVal c t v = true → encTy c t il v = some body →
     body.length + 4 ≤ fuel →
     decTy fuel t name (openTag name ++ body ++ closeTag name ++ rest) = some (v, rest)
 
@@ -1195,7 +1199,7 @@ def RT (t : XTy) : Prop :=
 def RT0 (t : XTy) : Prop :=
   ∀ names alts ext, t = .choice names alts ext →
   ∀ (c : Bool) (il : Nat) (v : Val) (body rest : Bytes) (fuel : Nat),
-    rtVal t v = true → encTy c t il v = some body → body.length ≤ fuel →
+    rtVal c t v = true → encTy c t il v = some body → body.length ≤ fuel →
     ∃ n r, nameOk n = true ∧ body = ws c il ++ (openTag n ++ r) ++ ws c (il - 1) ∧
       decTy fuel t [] (openTag n ++ r ++ (ws c (il - 1) ++ rest)) = some (v, ws c (il - 1) ++ rest)
 
@@ -1426,7 +1430,7 @@ theorem mapEnc_cons {α : Type} (f : α → Option Bytes) (v : α) (vs : List α
 theorem listLoop (c : Bool) (il : Nat) (en : Bytes) (e : XTy) (name : Bytes) (hname : nameOk name = true)
     (hen : nameOk en = true) (hcl : clash e en = false) (ihe : RT e) :
     ∀ (vs : List Val) (bodies : List Bytes), mapEnc (encTy c e (il + 1)) vs = some bodies →
-      vs.all (rtVal e) = true → ∀ (fuel : Nat) (rest : Bytes),
+      vs.all (rtVal c e) = true → ∀ (fuel : Nat) (rest : Bytes),
       ((bodies.map (wrapSeqOfElem c 0 en il)).flatten).length + (ws c (il - 1)).length + 2 ≤ fuel →
       decListBody fuel en e name ((bodies.map (wrapSeqOfElem c 0 en il)).flatten ++ ws c (il - 1) ++ closeTag name ++ rest)
         = some (vs, rest) := by
@@ -1468,7 +1472,7 @@ theorem listLoop (c : Bool) (il : Nat) (en : Bytes) (e : XTy) (name : Bytes) (hn
 /-- one element of a value list: its rendering is optional white space and one empty-element tag, which the
     element decoder (called with the type's own tag name `en`) consumes -/
 theorem vl_elem (c : Bool) (il : Nat) (en : Bytes) (e : XTy) (hen : nameOk en = true) (hvl : isVL e = true)
-    (hcl : clash e en = false) (hty : rtTy e = true) (v : Val) (body : Bytes) (hv : rtVal e v = true)
+    (hcl : clash e en = false) (hty : rtTy e = true) (v : Val) (body : Bytes) (hv : rtVal c e v = true)
     (hb : encTy c e (il + 1) v = some body) :
     ∃ w x, wrapSeqOfElem c 1 en il body = w ++ emptyTag x ∧ (∀ y ∈ w, y ≠ cLT) ∧ nameOk x = true ∧
       ∀ f rest, decTy (f + 1) e en (emptyTag x ++ rest) = some (v, rest) := by
@@ -1546,7 +1550,7 @@ theorem decListBody_elem_empty (en : Bytes) (e : XTy) (name : Bytes) (hname : na
 theorem listLoop1 (c : Bool) (il : Nat) (en : Bytes) (e : XTy) (name : Bytes) (hname : nameOk name = true)
     (hen : nameOk en = true) (hvl : isVL e = true) (hcl : clash e en = false) (hty : rtTy e = true) :
     ∀ (vs : List Val) (bodies : List Bytes), mapEnc (encTy c e (il + 1)) vs = some bodies →
-      vs.all (rtVal e) = true → ∀ (fuel : Nat) (rest : Bytes),
+      vs.all (rtVal c e) = true → ∀ (fuel : Nat) (rest : Bytes),
       ((bodies.map (wrapSeqOfElem c 1 en il)).flatten).length + (ws c (il - 1)).length + 2 ≤ fuel →
       decListBody fuel en e name ((bodies.map (wrapSeqOfElem c 1 en il)).flatten ++ ws c (il - 1) ++ closeTag name ++ rest)
         = some (vs, rest) := by
@@ -1583,7 +1587,7 @@ theorem listLoop1 (c : Bool) (il : Nat) (en : Bytes) (e : XTy) (name : Bytes) (h
 theorem listLoop2 (c : Bool) (il : Nat) (e : XTy) (names : List Bytes) (alts : List XTy) (ext : Bool)
     (he : e = .choice names alts ext) (name : Bytes) (hname : nameOk name = true) (h0 : RT0 e) :
     ∀ (vs : List Val) (bodies : List Bytes), mapEnc (encTy c e (il + 1)) vs = some bodies →
-      vs.all (rtVal e) = true → ∀ (w0 : Bytes), (∀ y ∈ w0, y ≠ cLT) → ∀ (fuel : Nat) (rest : Bytes),
+      vs.all (rtVal c e) = true → ∀ (w0 : Bytes), (∀ y ∈ w0, y ≠ cLT) → ∀ (fuel : Nat) (rest : Bytes),
       w0.length + ((bodies.map (wrapSeqOfElem c 2 [] il)).flatten).length + (ws c (il - 1)).length + 2 ≤ fuel →
       decListBody fuel [] e name
         (w0 ++ ((bodies.map (wrapSeqOfElem c 2 [] il)).flatten ++ (ws c (il - 1) ++ (closeTag name ++ rest))))
@@ -1789,8 +1793,8 @@ theorem encAlt_spec (c : Bool) : ∀ (names : List Bytes) (alts : List XTy) (il 
         obtain ⟨n, m', b, h1, h2, h3, h4⟩ := ih ms il i v out h
         exact ⟨n, m', b, by simpa using h1, by simpa using h2, h3, h4⟩
 
-theorem rtAlt_get : ∀ (alts : List XTy) (i : Nat) (v : Val) (m : XTy), rtAlt alts i v = true → alts[i]? = some m →
-    rtVal m v = true := by
+theorem rtAlt_get (c : Bool) : ∀ (alts : List XTy) (i : Nat) (v : Val) (m : XTy), rtAlt c alts i v = true → alts[i]? = some m →
+    rtVal c m v = true := by
   intro alts
   induction alts with
   | nil => intro i v m h; simp [rtAlt] at h
@@ -1870,7 +1874,7 @@ theorem rt_choice (names : List Bytes) (alts : List XTy) (ext : Bool)
         rw [hsplit, this, hpl]; simp
       have hrt := ih m hmem c n (il + 1) x b
         ((if c = true then [] else indent (il - 1)) ++ (closeTag name ++ rest)) f' hnok
-        (noClash_get names alts i n m hnc hn hm) (rtAlt_get alts i x m hv hm) hb (by omega)
+        (noClash_get names alts i n m hnc hn hm) (rtAlt_get c alts i x m hv hm) hb (by omega)
       simp only [List.append_assoc] at hrt
       have hclose : decChoiceClose f' name (.choice i x)
           ((if c = true then [] else indent (il - 1)) ++ (closeTag name ++ rest)) = some (.choice i x, rest) := by
@@ -1917,7 +1921,7 @@ theorem rt_choice0 (names : List Bytes) (alts : List XTy) (ext : Bool)
         have := findMember_open n hnok pre post 0 alts.length last hpre (by rw [hpl]; omega)
         rw [hsplit, this, hpl]; simp
       have hrt := ih m hmem c n (il + 1) x b (ws c (il - 1) ++ rest) g hnok
-        (noClash_get names alts i n m hnc hn hm) (rtAlt_get alts i x m hv hm) hb hg
+        (noClash_get names alts i n m hnc hn hm) (rtAlt_get c alts i x m hv hm) hb hg
       simp only [List.append_assoc] at hrt ⊢
       have hct : checkTag (openTag n) [] = .unkOp := by rw [checkTag_open n [] hnok]; rfl
       have hcl : decChoiceClose g [] (.choice i x) (ws c (il - 1) ++ rest) = some (.choice i x, ws c (il - 1) ++ rest) := by
@@ -1949,17 +1953,21 @@ theorem optCount_all : ∀ (l : List Attr), (∀ a ∈ l, omitable a = true) →
     intro h
     simp only [optCount, h a (by simp), if_true, List.length_cons, ih (fun x hx => h x (by simp [hx]))]
 
-theorem rtVal_absent (m : XTy) : rtVal m .absent = false := by
+theorem rtVal_absent (c : Bool) (m : XTy) : rtVal c m .absent = false := by
   cases m <;> simp [rtVal]
 
 theorem encMembers_absent (c : Bool) (n : Bytes) (ns : List Bytes) (m : XTy) (ms : List XTy) (a : Attr) (as : List Attr)
-    (il : Nat) (vs : List Val) (hd : dfltVal a = none) (ho : omitable a = true) :
+    (il : Nat) (vs : List Val) (hd : (c || (dfltVal a).isNone) = true) (ho : omitable a = true) :
     encMembers c (n :: ns) (m :: ms) (a :: as) il (.absent :: vs) = encMembers c ns ms as il vs := by
-  simp only [encMembers, hd, ho, if_true]
+  have hd' : (if c = true then none else dfltVal a) = none := by
+    cases c
+    · simpa using hd
+    · rfl
+  simp only [encMembers, hd', ho, if_true]
   cases encMembers c ns ms as il vs <;> rfl
 
 theorem encMembers_present (c : Bool) (n : Bytes) (ns : List Bytes) (m : XTy) (ms : List XTy) (a : Attr) (as : List Attr)
-    (il : Nat) (v : Val) (vs : List Val) (hv : rtVal m v = true) (R : Bytes)
+    (il : Nat) (v : Val) (vs : List Val) (hv : rtVal c m v = true) (hnd : (c && isDefault a v) = false) (R : Bytes)
     (h : encMembers c (n :: ns) (m :: ms) (a :: as) il (v :: vs) = some R) :
     ∃ b R', encTy c m (il + 1) v = some b ∧ encMembers c ns ms as il vs = some R' ∧
       R = ws c il ++ (openTag n ++ b ++ closeTag n) ++ R' := by
@@ -1982,7 +1990,7 @@ theorem encMembers_present (c : Bool) (n : Bytes) (ns : List Bytes) (m : XTy) (m
   | _ =>
     apply key
     rw [← h]
-    simp only [encMembers]
+    simp only [encMembers, hnd, Bool.false_eq_true, if_false]
     cases encMembers c ns ms as il vs with
     | none => rfl
     | some R' =>
@@ -2050,7 +2058,7 @@ theorem seqLoop (c : Bool) (il : Nat) (names : List Bytes) (ms : List XTy) (attr
       names = np ++ ns → ms = mp ++ ms' → attrs = ap ++ as → np.length = mp.length → ap.length = mp.length →
       ns.length = ms'.length →
       j ≤ ap.length → (∀ a ∈ ap.drop (ap.length - j), omitable a = true) →
-      rtVals ms' as vs = true → ∀ R, encMembers c ns ms' as il vs = some R → ∀ (fuel : Nat) (rest : Bytes),
+      rtVals c ms' as vs = true → ∀ R, encMembers c ns ms' as il vs = some R → ∀ (fuel : Nat) (rest : Bytes),
       R.length + (ws c (il - 1)).length + 2 ≤ fuel →
       decSeqBody fuel names ms attrs fe name (mp.length - j) (R ++ (ws c (il - 1) ++ (closeTag name ++ rest)))
         = some (absents j ++ vs, rest) := by
@@ -2105,7 +2113,7 @@ theorem seqLoop (c : Bool) (il : Nat) (names : List Bytes) (ms : List XTy) (attr
       have hl2' : (ap ++ [a]).length = (mp ++ [m]).length := by simp [hl2]
       by_cases hab : ∃ (d : Unit), v = .absent
       · obtain ⟨_, rfl⟩ := hab
-        simp only [Bool.and_eq_true, Option.isNone_iff_eq_none] at hv
+        simp only [Bool.and_eq_true] at hv
         rw [encMembers_absent c n ns' m ms'' a as' il vs' hv.1.1 hv.1.2] at hR
         have hom' : ∀ x ∈ (ap ++ [a]).drop ((ap ++ [a]).length - (j + 1)), omitable x = true := by
           intro x hx
@@ -2122,11 +2130,15 @@ theorem seqLoop (c : Bool) (il : Nat) (names : List Bytes) (ms : List XTy) (attr
         rw [this]
         congr 2
         simp only [absents, replicate_succ_append, List.append_assoc, List.singleton_append]
-      · have hvm : rtVal m v = true := by
+      · have hvm : rtVal c m v = true ∧ (c && isDefault a v) = false := by
           cases v with
           | absent => exact absurd ⟨(), rfl⟩ hab
-          | _ => exact hv.1
-        obtain ⟨b, R', hb, hR', rfl⟩ := encMembers_present c n ns' m ms'' a as' il v vs' hvm R hR
+          | _ =>
+            have h1 := hv.1
+            simp only [Bool.and_eq_true, Bool.not_eq_true'] at h1
+            exact h1
+        obtain ⟨hvm, hdf⟩ := hvm
+        obtain ⟨b, R', hb, hR', rfl⟩ := encMembers_present c n ns' m ms'' a as' il v vs' hvm hdf R hR
         have hnmem : n ∈ names := by rw [hN]; simp
         have hnok := hnm n hnmem
         have hmmem : m ∈ ms := by rw [hM]; simp
